@@ -82,6 +82,14 @@ class Scenario:
             rec['sd'] = sd_hash
         self.blobs.append(rec)
 
+    def recomplete(self, i):
+        """blob i goes through BlobManager.blob_completed again (what the downloader / the start-up pass do for a file that is there)"""
+        env = self.env
+        b = self.blobs[i]
+        with env.loop:
+            t = env.blob_manager.blob_completed(env.blob_manager.get_blob(b['hash'], b['size']))
+        env.loop.drain(stop=t.done, timers=False)
+
     def present(self):
         files = set(os.listdir(self.env.blob_dir))
         rows = {r[0] for r in self.env.rows("select blob_hash from blob where status='finished'")}
@@ -143,6 +151,11 @@ def leg_c(ctx):
                 else:
                     if ctx.rng.random() < 0.5:      # the daemon's status command reads the (cached) usage between passes
                         sc.env.run(sc.dsm.get_space_used_mb())
+                    if sc.blobs and ctx.rng.random() < 0.5:     # a stored blob is completed again (bookkeeping only: nothing changes class)
+                        present = sc.present()
+                        cand = [i for i, b in enumerate(sc.blobs) if b['hash'] in present]
+                        if cand:
+                            sc.recomplete(ctx.rng.choice(cand))
                     b = {'cls': ctx.rng.choice(CLS), 'size': ctx.rng.choice(SIZES), 'here': True}
                     sc.add(b)
                     evs.append({'event': 'Add', 'blob': b})
